@@ -63,4 +63,13 @@ sequence of model steps (each atomic) is an adequate model of concurrent session
 def txSerialised : Bool :=
   ["RIB.AddEntry", "RIB.DeleteEntry", "RIB.Flush"].all (fun f => fnLocks.contains (f, "txMu", true))
 
+/-- the receiver and the sender record errors and process responses while holding the `awaiting`
+lock, so `AwaitConverged` (which takes it exclusively) never observes a response half-processed:
+drained queues but the error not yet recorded (the atomic-step assumption of the C13/C14 models) -/
+def handlersAtomic : Bool :=
+  (calls.filter (fun c => c.1 != "Client.Q")).all (fun c => c.2.2.1.any (fun l => l.1 == "awaiting")) &&
+  calls.any (fun c => c.1 == "Client.Connect.func" && c.2.1 == "handleModifyResponse") &&
+  calls.any (fun c => c.1 == "Client.Connect.func" && c.2.1 == "addReadErr") &&
+  calls.any (fun c => c.1 == "Client.Connect.func" && c.2.1 == "addSendErr")
+
 end Gribi.FactsOk
